@@ -19,6 +19,8 @@ if ISO:
         d = os.path.join(HERE, "seeded", sid)
         meta = json.load(open(os.path.join(d, "meta.json")))
         a = subprocess.run(["git", "-C", WT, "apply", os.path.join(d, "patch.diff")], capture_output=True, text=True)
+        if a.returncode:  # the tree moved on since the change was written: fall back to a fuzzy patch
+            a = subprocess.run(["patch", "-p1", "-F3", "--no-backup-if-mismatch", "-i", os.path.join(d, "patch.diff")], cwd=WT, capture_output=True, text=True)
         if a.returncode:
             print(sid, "PATCH-DOES-NOT-APPLY", a.stderr.strip()[:200]); rc_all = 1; continue
         try:
